@@ -164,7 +164,8 @@ Definition sig_fits (is13 : bool) (key id : N) : bool :=
   | Some (_, k12, k13, _) => mem key (if is13 then k13 else k12)
   | None => false
   end.
-(* MessageCertificateVerify.Marshal accepts the scheme *)
+(* MessageCertificateVerify.Marshal accepts the scheme (regenerated column: since the RSA-PSS encoding fix it
+   holds for every scheme a selection can return - theorem selectable_schemes_are_encodable) *)
 Definition sig_encodable (id : N) : bool := match sig_info id with Some (_, _, _, e) => e | None => false end.
 
 (* signaturehash.ParseSignatureSchemes *)
@@ -496,11 +497,21 @@ Definition server13 (k : conn) (ssuites : list N) (h : hello) : res server_fligh
 
 (* ------------------------------------------------------------------ client: flight3Parse .. flight5Generate *)
 
-(* the client's CertificateVerify: scheme chosen from the list the SERVER announced *)
+(* internal/flight/helpers.go CommonSignatureSchemes(remote, local): the peer's schemes the local policy
+   also allows, in the PEER's order; an empty local list allows all *)
+Definition common_sigs (remote local : list N) : list N :=
+  match local with
+  | [] => remote
+  | _ => filter (fun x => mem x local) remote
+  end.
+
+(* the client's CertificateVerify (flight12 flight5Generate, flight13 flight5ClientAuthPackets): first scheme
+   of the server's CertificateRequest list that the client's own SignatureSchemes allow and its key can use *)
 Definition client_auth_sig (is13 : bool) (ck sk : conn) (f : server_flight) : res (bool * N) :=
   if f_cert_req f then
     if c_key (k_cfg ck) =? 0 then ROk (false, 0) else
-    do sg <- of_opt (select_sig is13 (k_sigs sk) (c_key (k_cfg ck))) g11_alert_insufficient_security;
+    do sg <- of_opt (select_sig is13 (common_sigs (k_sigs sk) (k_sigs ck)) (c_key (k_cfg ck)))
+                    g11_alert_insufficient_security;
     ROk (true, sg)
   else ROk (false, 0).
 
